@@ -11,7 +11,12 @@ Tie, per generated program of the mini-language (ClassLang.v):
      of every class object reachable from the globals (name, superclass, metaclass, method tables with the identity of
      each method value = function name / arity / defining line) against M's copy-down tables;
  (b) impl == S: printed lines and error outcome against eval_spec;
- (c) metamorphic: the program with every statement-level `x.m(a)` rewritten to `var t = x.m; t(a)` prints the same."""
+ (c) metamorphic: the program with every statement-level `x.m(a)` rewritten to `var t = x.m; t(a)` prints the same.
+Round 8 (props/C07_limits.v over ClassLimits.v / ClassLimitsProofs.v): the errors of the property at the limits of the machine -
+call_closure tests the arity before the frame limit (side condition on the current source), an error found while the callee is
+determined wins at every depth, the frame limit is reported exactly at frames_max frames, natives are exempt; generator family
+Gen.limit_scenario (a self-limiting descent to exactly FRAMES_MAX frames through every call path, then every error through
+every call path there and one frame higher)."""
 import os
 import re
 
@@ -29,7 +34,9 @@ TRUSTED = [
 ASSUMPTIONS = [
     "the identity of a method value is (function name, arity, line of its first instruction); render puts every method on its own line",
     "the mini-language's evaluator is shared between S and M except for member lookup, invoke, super access, derives",
-    "module receivers of get/set/invoke are outside the model; the 64-frame limit is modelled (ClassLang.frames_max)",
+    "module receivers of get/set/invoke are outside the model; the 64-frame limit is modelled (ClassLang.frames_max) and "
+    "reached by generated programs (self-limiting descents, Gen.limit_scenario); fibers, user-written catch/finally bodies and "
+    "the value-stack limit are not modelled",
 ]
 
 FIXED_SUPER_NESTED = "super-receiver-in-nested-function"   # fixed in /repo by commit 0fbde2d
@@ -1541,13 +1548,12 @@ def other_reference(ctx, cases, models, recs, limit):
         ctx.notes.append("SpecRun.v/ParseRun.v (full reference interpreter) not built: that comparison is skipped")
         return
     # the descents to the frame limit are expensive in the full interpreter (measured: the two fixed limit programs alone
-    # ~4 min under load; they agreed): the quick tier takes ONE generated program with a descent, the thorough tier also the
-    # fixed ones
+    # ~4 min under load; they agreed): the quick tier takes ONE generated program with a descent, the thorough tier 6
     def is_limit(i):
         return any(f.startswith("limit_descent") for f in cases[i]["features"])
     plain = [i for i, m in enumerate(models) if m and not is_limit(i)]
     lim = [i for i, m in enumerate(models) if m and is_limit(i)]
-    lim_take = [i for i in lim if not cases[i]["features"][0].startswith("fixed:")][:1] if ctx.quick() else lim[:12]
+    lim_take = [i for i in lim if not cases[i]["features"][0].startswith("fixed:")][:1 if ctx.quick() else 6]
     idx = sorted(plain[:max(0, limit - len(lim_take))] + lim_take)
     ctx.cov["reference_interpreter_limit_programs"] = len(lim_take)
     terms = ['run_case 400 nil "%s"' % hx(models[i]["src"]) for i in idx]
